@@ -36,7 +36,9 @@ def main():
     store = os.path.join(root, "store")
     watched = (store + os.sep, os.path.join(root, "state") + os.sep, store)
     state = State(root_dir=root, tmp_dir=os.path.join(root, "state"))
-    odb = LocalHashFileDB(fs, store, state=state)
+    verify = scenario.endswith("_verify")      # a store opened with verify=True
+    scenario = scenario[: -len("_verify")] if verify else scenario
+    odb = LocalHashFileDB(fs, store, state=state, **({"verify": True} if verify else {}))
     ws = os.path.join(root, "ws")
     data = os.path.join(ws, "data")
     count = {"n": 0}
